@@ -155,6 +155,30 @@ def float_checks(ck, rng, nr, crys, ops, replay, stats):
     return fails
 
 
+def all_ops_check(crys, stats):
+    """for EVERY operation and EVERY atom: g_cart on the Cartesian position = Cartesian position of g_pos = of g_vect, and the image is the
+    atom recorded in indexmap (cart2pos); also for g.inv()"""
+    d = crys.dim; fails = []
+    worst = 0.0
+    for g in crys.G:
+        gi = g.inv()
+        for ind in crys.atomindices:
+            R = np.array([(3 * ind[1] + 2 * k + ind[0]) % 5 - 2 for k in range(d)], dtype=int)
+            x = crys.pos2cart(R, ind)
+            gR, gind = crys.g_pos(g, R, ind)
+            xp = crys.pos2cart(gR, gind); xc = crys.g_cart(g, x)
+            xv = crys.unit2cart(*crys.g_vect(g, R, crys.basis[ind[0]][ind[1]]))
+            e = max(float(np.abs(xp - xc).max()), float(np.abs(xp - xv).max()), float(np.abs(crys.g_cart(gi, xc) - x).max()))
+            worst = max(worst, e)
+            if e > FTOL * 10 and len(fails) < 3:
+                fails.append("g_cart / g_pos / g_vect disagree by %.3g for rot %s trans %s atom %s" % (e, g.rot.tolist(), np.round(g.trans, 6).tolist(), ind))
+            if gind[1] != g.indexmap[ind[0]][ind[1]] or crys.cart2pos(xc)[1] != gind:
+                if len(fails) < 3: fails.append("image of atom %s under rot %s is not the atom recorded in indexmap" % (ind, g.rot.tolist()))
+            stats["allops-evals"] += 1
+    stats["maxerr"] = max(stats["maxerr"], worst)
+    return fails
+
+
 def exact_terms(ck, rng, crys, view, ops, stats):
     """one Coq line: the implementation's integer outputs vs the model on the same exact inputs"""
     from onsager import crystalStars, cluster
@@ -239,6 +263,28 @@ def run(ck):
         rng.shuffle(specs); specs = specs[:8]
     for k in range(ck.n(22, 400)):
         specs.append(latt.random_spec(rng, dim=(2 if k % 3 == 0 else 3), maxatoms=ck.n(8, 12), spin_mode="none"))
+    # non-symmorphic crystals (2-D glide groups pg, pmg, pgg, p4g; Pnma-like; hcp; diamond; multi-chemistry screw/glide crystals) in their
+    # own frame, in a rigidly rotated Cartesian frame (lattice matrix not symmetric) and in a sheared cell: every operation is checked
+    ns = latt.glide_specs() + [x for x in latt.nonsymmorphic_specs() if x.label in ("ns-ortho-I", "ns-tet-I-reversed", "ns-rect-glide", "ns-ortho-C-4")]
+    special = []
+    for b in ns:
+        special.append((b, {}))
+        special.append((latt.rotate_frame(b, latt.random_rotation(rng, b.dim)), {}))
+        if not ck.quick or rng.random() < 0.4:
+            special.append((latt.rotate_frame(latt.skew(rng, b, 1)[0], latt.random_rotation(rng, b.dim), "+rot"), {"noreduce": True}))
+    stats["allops-evals"] = 0; stats["nonsymmorphic-ops"] = 0
+    for spec, kw in special:
+        crys = latt.build(spec, **kw)
+        stats["nonsymmorphic-ops"] += sum(1 for g in crys.G if not np.allclose(g.trans, 0))
+        try:
+            fails = all_ops_check(crys, stats)
+        except Exception as e:
+            fails = ["implementation raised %s: %s" % (type(e).__name__, e)]
+        ck.case(key=(spec.describe(), "allops"), nontrivial=True, kind="%dD-allops-%s" % (crys.dim, "rotated" if "+rot" in spec.label else "aligned"),
+                sample={"crystal": spec.label, "|G|": len(crys.G), "tier": "all operations"} if len(ck.samples) < 2 else None)
+        if fails:
+            ck.violation("g_cart / g_pos / g_vect / indexmap disagree: " + "; ".join(fails[:3]), {"spec": spec.describe(), "crystal": repr(crys), "failures": fails},
+                         key="c23-float")
     lines = []
     for spec in specs:
         crys = latt.build(spec)
